@@ -225,7 +225,13 @@ MODULES = {"operator": ModuleTable({"methodcaller": _MethodCaller, "itemgetter":
 _BIN = {ast.Add: operator.add, ast.Sub: operator.sub, ast.Mult: operator.mul, ast.Div: operator.truediv, ast.FloorDiv: operator.floordiv,
         ast.Mod: operator.mod, ast.Pow: operator.pow, ast.BitAnd: operator.and_, ast.BitOr: operator.or_, ast.BitXor: operator.xor}
 _CMP = {ast.Eq: operator.eq, ast.NotEq: operator.ne, ast.Lt: operator.lt, ast.LtE: operator.le, ast.Gt: operator.gt, ast.GtE: operator.ge,
-        ast.In: lambda a, b: a in b, ast.NotIn: lambda a, b: a not in b, ast.Is: operator.is_, ast.IsNot: operator.is_not}
+        ast.In: lambda a, b: a in b, ast.NotIn: lambda a, b: a not in b, ast.Is: lambda a, b: _is(a, b), ast.IsNot: lambda a, b: not _is(a, b)}
+
+
+def _is(a, b) -> bool:
+    """`a is b`; stand-ins for singletons of the analysed code (enum members) say themselves whether they are the same object."""
+    h = getattr(type(a), "_abs_is", None) if isinstance(a, Stub) else None   # looked up on the class: stand-ins may answer any attribute
+    return h(a, b) if h is not None else a is b
 PURE_TYPES = (str, list, dict, set, tuple, frozenset, int, float, bool, type(None), range)
 FORBIDDEN_METHODS = {"__class__", "__dict__", "__globals__", "__subclasses__", "format_map"}
 
@@ -679,6 +685,9 @@ class Interp:
             v = self.ev(e.value, env)
             self.assign(e.target, v, env)
             return v
+        if isinstance(e, ast.Slice):
+            return slice(self.ev(e.lower, env) if e.lower is not None else None, self.ev(e.upper, env) if e.upper is not None else None,
+                         self.ev(e.step, env) if e.step is not None else None)
         if isinstance(e, ast.Yield):
             try:
                 env.get("$yield").append(self.ev(e.value, env) if e.value is not None else None)
